@@ -12,18 +12,18 @@ type deferred struct {
 }
 
 type State struct {
-	env     map[types.Object]Value
-	glob    map[string]Value // package-level variables by qualified name
-	heap    map[string]*Term
-	famGen  map[string]int // heap family prefix -> generation (for lazily created keys)
-	pc      []*Term
-	pcDec   []bool // parallel to pc: true for branch decisions (discriminators at merges)
-	alloc   *Term // allocation watermark (mathint); refs > alloc are fresh
-	alloc0  *Term // watermark at function entry
-	dead    bool
-	defers  [][]deferred
-	ghost   map[string]Value
-	gen     int
+	env    map[types.Object]Value
+	glob   map[string]Value // package-level variables by qualified name
+	heap   map[string]*Term
+	famGen map[string]int // heap family prefix -> generation (for lazily created keys)
+	pc     []*Term
+	pcDec  []bool // parallel to pc: true for branch decisions (discriminators at merges)
+	alloc  *Term  // allocation watermark (mathint); refs > alloc are fresh
+	alloc0 *Term  // watermark at function entry
+	dead   bool
+	defers [][]deferred
+	ghost  map[string]Value
+	gen    int
 }
 
 func newState() *State {
@@ -259,9 +259,9 @@ func (s *State) assumeValid(v Value) {
 		s.assume(f)
 	}
 	// references read from the heap were allocated before now
-	for p, t := range v.L {
+	for _, p := range sortedKeys(v.L) {
+		t := v.L[p]
 		if t.Sort == sortRef && (strings.HasSuffix(p, ".ref") || p == "") && t.Op != "const" {
-			_ = p
 			s.assume(mkCmp("le", t, s.alloc))
 		}
 	}
@@ -288,8 +288,8 @@ const (
 )
 
 type step struct {
-	field string // ".name"
-	idx   *Term  // or array index
+	field string     // ".name"
+	idx   *Term      // or array index
 	t     types.Type // type after the step
 }
 
@@ -448,7 +448,9 @@ func (s *State) writeLV(lv *LValue, v Value) {
 	}
 	root := s.readRoot(lv)
 	nr := Value{T: root.T, L: make(map[string]*Term, len(root.L))}
-	for p, x := range root.L {
+	for _, p := range sortedKeys(root.L) {
+		x := root.L[p]
+		_ = x
 		nr.L[p] = x
 	}
 	for _, l := range leavesOf(t) {
@@ -551,7 +553,9 @@ func mergeValues(conds []*Term, vals []Value) Value {
 			same = false
 			break
 		}
-		for p, t := range v0.L {
+		for _, p := range sortedKeys(v0.L) {
+			t := v0.L[p]
+			_ = t
 			if v.L[p] != t {
 				same = false
 				break
@@ -572,7 +576,7 @@ func mergeValues(conds []*Term, vals []Value) Value {
 		return v0
 	}
 	out := Value{T: v0.T, L: make(map[string]*Term, len(v0.L)), Loc: v0.Loc, Fn: v0.Fn}
-	for p := range v0.L {
+	for _, p := range sortedKeys(v0.L) {
 		acc := vals[len(vals)-1].L[p]
 		if acc == nil {
 			unsupp("merge: leaf %s missing", p)
